@@ -288,27 +288,51 @@ def numeric_datatypes_check_properties():
     return 'bool', cbool(ok)
 
 
-def array_check_ignores_members():
-    """ArrayOf.checkProperties does not descend into self.members (finding C10/inverted-limits-array-member)"""
+def array_check_descends_into_members():
+    """ArrayOf.checkProperties also checks the element type (min/max forwarded by ArrayOf.setProperty)"""
     f = find_func(find_class(parse(DT), 'ArrayOf'), 'checkProperties')
-    return 'bool', cbool('members.checkProperties' not in src(f).replace('self.', ''))
+    s = src(f).replace(' ', '')
+    return 'bool', cbool('super().checkProperties()' in s and 'self.members.checkProperties()' in s)
 
 
-def name_map_filled_before_cfg():
-    """_add_accessible: accessiblename2attr is filled before the cfg properties are applied
-    (finding C10/export-override-name-map-stale)"""
+def name_map_filled_after_cfg():
+    """_add_accessible: cfg properties applied first; then hiding for an unexported module, fixExport(), a duplicate
+    export name is collected as error, accessiblename2attr[export] = name; _handle_writes last"""
     f = _add_accessible()
-    idx_map = idx_cfg = None
+    idx = {}
     for i, n in enumerate(f.body):
         s = src(n).replace(' ', '')
-        if 'self.accessiblename2attr[accessible.export]=name' in s:
-            idx_map = i
         if s.startswith('ifcfgisnotNone:'):
-            idx_cfg = i
-    if idx_map is None or idx_cfg is None:
-        raise Shape('name map / cfg block not found')
-    later = any('accessiblename2attr' in src(n) for n in f.body[idx_cfg:])
-    return 'bool', cbool(idx_map < idx_cfg and not later)
+            idx['cfg'] = i
+        if s.startswith('ifnotself.export:') and 'accessible.export=False' in s:
+            idx['hide'] = i
+        if s == 'accessible.fixExport()':
+            idx['fix'] = i
+        if s.startswith('ifaccessible.export:') and 'self.accessiblename2attr[accessible.export]=name' in s:
+            idx['map'] = i
+            if not ('ifaccessible.exportinself.accessiblename2attr:' in s and 'self.errors.append' in s):
+                raise Shape('duplicate export name is not collected as error')
+        if 'self._handle_writes(name,accessible)' in s:
+            idx['hw'] = i
+    if sorted(idx) != ['cfg', 'fix', 'hide', 'hw', 'map']:
+        raise Shape(f'_add_accessible: found only {sorted(idx)}')
+    ok = idx['cfg'] < idx['hide'] < idx['fix'] < idx['map'] < idx['hw'] and \
+        sum('accessiblename2attr[' in src(n) and '=name' in src(n).replace(' ', '') for n in f.body) == 1
+    return 'bool', cbool(ok)
+
+
+def all_modules_initialised():
+    """Server._processCfg: after get_descriptive_data('') every module of secnode.modules is fetched with get_module"""
+    f = find_func(find_class(parse(SV), 'Server'), '_processCfg')
+    pos = None
+    for i, n in enumerate(f.body):
+        if "self.secnode.get_descriptive_data('')" in src(n):
+            pos = i
+    if pos is None:
+        raise Shape('get_descriptive_data call not found')
+    ok = any(isinstance(n, ast.For) and src(n.iter).replace(' ', '') == 'list(self.secnode.modules)'
+             and 'self.secnode.get_module(modname)' in src(n) for n in f.body[pos + 1:pos + 3])
+    return 'bool', cbool(ok)
 
 
 def registers_only_created():
@@ -391,7 +415,8 @@ FACTS = [module_props, param_props, command_props, checked_value_props,
          checks_only_without_errors_and_raise, unknown_names_reported, module_props_popped_and_badvalue_collected,
          writedict_only_with_write_method, needscfg_and_uninit_marker, writes_before_first_polls,
          write_init_pops_each_entry_once, minmax_check_present, mandatory_check_present,
-         numeric_datatypes_check_properties, array_check_ignores_members, name_map_filled_before_cfg,
+         numeric_datatypes_check_properties, array_check_descends_into_members, name_map_filled_after_cfg,
+         all_modules_initialised,
          registers_only_created, exit_on_errors, merge_first_wins_and_tags, modname_regex, mod_wraps_bare_values,
          unlimited, float_default_relres]
 
